@@ -1,6 +1,7 @@
 #!/bin/bash
 # Helpers for seeded mutants.
 #   mutant.sh confirm <dir> [extra g++ flags]   in a scratch worktree: suite passes with patch, demo fails with patch and passes without
+#   mutant.sh suite <patch.diff>               run the pinned suite on a scratch worktree with the patch applied
 #   mutant.sh check <patch.diff> <PROP>...      apply the patch to /repo, run the quick checks of the given properties, undo the patch
 set -u
 cmd=$1; shift
@@ -23,6 +24,13 @@ confirm)
     echo "CONFIRM: demo clean rc=$clean_rc, demo with patch rc=$mut_rc, suite with patch: $suite"
     [ "$clean_rc" = 0 ] && [ "$mut_rc" != 0 ] && echo "$suite" | grep -q "PASSED  \] 112 tests" && { echo "CONFIRMED"; exit 0; }
     echo "NOT CONFIRMED"; exit 1 ;;
+suite)
+    patch=$(realpath "$1"); shift
+    wt=$(mktemp -d /tmp/mutwt.XXXXXX); rmdir "$wt"
+    git -C /repo worktree add -q "$wt" HEAD || exit 2
+    trap 'git -C /repo worktree remove --force "$wt" >/dev/null 2>&1; rm -rf "$wt"' EXIT
+    git -C "$wt" apply "$patch" || { echo "SUITE: patch does not apply"; exit 1; }
+    bash /verif/tools/run_suite.sh "$wt" 2>&1 | tail -1 ;;
 check)
     patch=$(realpath "$1"); shift
     [ -z "$(git -C /repo status --porcelain --untracked-files=no)" ] || { echo "/repo has local changes"; exit 2; }
